@@ -158,9 +158,7 @@ func VerifCtxShape(ctx *Ctx) []byte {
 	}
 	i("ln", ctx.ln)
 	b("chQB", ctx.chQB)
-	b("chJQ", ctx.chJQ)
-	b("chHE", ctx.chHE)
-	b("chUE", ctx.chUE)
+	i("bnd", len(ctx.bnd))
 	b("noesc", ctx.noesc)
 	i("buf", len(ctx.buf))
 	i("bufS", len(ctx.bufS))
